@@ -305,7 +305,7 @@ func init() {
 	Register(&Checker{
 		ID: "C09", Level: "exploration", Engine: "A",
 		Rule: "case = (grammar, layout, K map-order schedules); grammars: 26 textbook separators + renamed/permuted/embedded variants, family FX (all grammars with <=2 nonterminals, <=2 terminals, <=3 rules, rhs<=2; sampled in quick, all in thorough), random CFGs (<=7 nonterminals, <=6 terminals, rhs<=5) kept when the reference finds them usable. distinct_nontrivial = distinct grammars (hash of the abstract rule list) whose canonical collection has more than one state.",
-		NumCases: func(ctx *Ctx) int { return autoCases(ctx, 700, 30000) },
+		NumCases: func(ctx *Ctx) int { return autoCases(ctx, 5000, 30000) },
 		Gen:      genAutoCase(false, 3, 8),
 		Exec:     execC09,
 		Probes:   []string{"probe_state_with_two_predecessors", "probe_nullable_grammar", "probe_multi_state"},
@@ -314,7 +314,7 @@ func init() {
 	Register(&Checker{
 		ID: "C03", Level: "exploration", Engine: "A",
 		Rule: "case = (grammar, layout, K map-order schedules); same grammar families as C09 plus random precedence declarations; oracle: canonical LR(1) collection merged by core. distinct_nontrivial = distinct grammars with at least one reduction whose lookahead set was compared.",
-		NumCases: func(ctx *Ctx) int { return autoCases(ctx, 700, 30000) },
+		NumCases: func(ctx *Ctx) int { return autoCases(ctx, 5000, 30000) },
 		Gen:      genAutoCase(true, 3, 8),
 		Exec:     execC03,
 		Probes:   []string{"probe_LALR_not_SLR", "probe_conflict_grammar", "probe_warning_due", "probe_all_conflicts_resolved_by_prec", "probe_nullable_grammar"},
